@@ -10,6 +10,11 @@ type requestCookie struct {
 	key, value string
 }
 
+// responseCookie is a copy of one cookie of the response: its key and the Set-Cookie value.
+type responseCookie struct {
+	key, raw string
+}
+
 // isRepeated reports whether one of the given cookies already has that key.
 func isRepeated(cookies []requestCookie, key string) bool {
 	for i := range cookies {
@@ -64,23 +69,33 @@ func New(config ...Config) fiber.Handler {
 		// Continue stack
 		err := c.Next()
 
-		// Encrypt response cookies
-		c.Response().Header.VisitAllCookie(func(key, _ []byte) {
-			keyString := string(key)
-			if !isDisabled(keyString, cfg.Except) {
-				cookieValue := fasthttp.Cookie{}
-				cookieValue.SetKeyBytes(key)
-				if c.Response().Header.Cookie(&cookieValue) {
-					encryptedValue, err := cfg.Encryptor(string(cookieValue.Value()), cfg.Key)
-					if err != nil {
-						panic(err)
-					}
-
-					cookieValue.SetValue(encryptedValue)
-					c.Response().Header.SetCookie(&cookieValue)
-				}
-			}
+		// Encrypt response cookies.
+		// Looking a cookie up and setting it by name while visiting only ever reaches the
+		// first cookie with that name (a handler can add several with the Set-Cookie
+		// header), so the cookies are copied out and added back one by one.
+		resHeader := &c.Response().Header
+		var resCookies []responseCookie
+		resHeader.VisitAllCookie(func(key, value []byte) {
+			resCookies = append(resCookies, responseCookie{key: string(key), raw: string(value)})
 		})
+		if len(resCookies) > 0 {
+			resHeader.DelAllCookies()
+		}
+		for i := range resCookies {
+			cookie := &resCookies[i]
+			if !isDisabled(cookie.key, cfg.Except) {
+				cookieValue := fasthttp.Cookie{}
+				cookieValue.Parse(cookie.raw) //nolint:errcheck // same as ResponseHeader.Cookie
+				encryptedValue, err := cfg.Encryptor(string(cookieValue.Value()), cfg.Key)
+				if err != nil {
+					panic(err)
+				}
+
+				cookieValue.SetValue(encryptedValue)
+				cookie.raw = cookieValue.String()
+			}
+			resHeader.Add(fiber.HeaderSetCookie, cookie.raw)
+		}
 
 		return err
 	}
